@@ -23,6 +23,20 @@ def gen(rng):
         elif r < 0.85:
             tag += 1
             ops.append(f"pub {cur} t/a q=1 pid={rng.choice([1, 2, 3, 4])} tag=m{tag}")
+        elif r < 0.93:
+            # pipelining: the client stops reading, sends several packets, then reads all the answers at once
+            ops.append(f"pause {cur}")
+            for _ in range(rng.randint(2, 4)):
+                k = rng.random()
+                if k < 0.5:
+                    ops.append(f"rel {cur} {rng.choice([1, 2, 3])}")
+                elif k < 0.8:
+                    tag += 1
+                    ops.append(f"pub {cur} t/a q=2 pid={rng.choice([1, 2, 3])} d={rng.choice([0, 1])} tag=m{tag}")
+                else:
+                    tag += 1
+                    ops.append(f"pub {cur} t/a q=1 pid={rng.choice([1, 2, 3, 4])} tag=m{tag}")
+            ops.append(f"resume {cur}")
         else:
             ops.append(rng.choice([f"close {cur}", f"disc {cur}"]))
             cur = connect(rng.choice([0, 0, 0, 1]))
@@ -34,6 +48,7 @@ def predicate(ops, out):
         return "implementation crashed or hung: " + (out[0] if out else "")
     open_ids = set()       # ids with a PUBLISH accepted and not yet released (trace-level spec)
     expiry = 0
+    paused, owed = None, []          # connection that is not reading; acknowledgements it is owed, in order
     for op, line in zip(ops, out):
         if "HANG" in line:
             return f"broker did not become quiescent after `{op}`"
@@ -46,10 +61,21 @@ def predicate(ops, out):
             h = conns.get(f[1], ([], []))[0]
             if any(x.startswith("connack(sp=0") for x in h):
                 open_ids = set()          # session reset
+        elif f[0] == "pause":
+            paused, owed = f[1], []
+        elif f[0] == "resume":
+            h = conns.get(f[1], ([], []))[0]
+            acks = [x for x in h if x.startswith(("puback(", "pubrec(", "pubcomp("))]
+            if len(acks) != len(owed) or any(not a.startswith(w) for a, w in zip(acks, owed)):
+                return f"`{op}`: the pipelined packets must be answered by {owed} in this order, got {acks}"
+            paused, owed = None, []
         elif f[0] == "pub" and f[1].startswith("p"):
             h = conns.get(f[1], ([], []))[0]
             pid, q, tag = kv["pid"], int(kv["q"]), kv["tag"]
             acks = [x for x in h if x.startswith(("puback(", "pubrec(", "pubcomp("))]
+            if f[1] == paused:
+                owed.append(f"pubrec({pid}," if q == 2 else f"puback({pid},")
+                acks = [owed[-1]]
             if q == 2:
                 if len(acks) != 1 or not acks[0].startswith(f"pubrec({pid},"):
                     return f"`{op}`: expected exactly one PUBREC({pid}), got {h}"
@@ -66,7 +92,9 @@ def predicate(ops, out):
                     return f"`{op}`: QoS 1 PUBLISH must be forwarded once, subscriber got {got}"
         elif f[0] == "rel":
             h = conns.get(f[1], ([], []))[0]
-            if [x for x in h if x.startswith(("puback(", "pubrec(", "pubcomp("))] != [f"pubcomp({f[2]})"]:
+            if f[1] == paused:
+                owed.append(f"pubcomp({f[2]})")
+            elif [x for x in h if x.startswith(("puback(", "pubrec(", "pubcomp("))] != [f"pubcomp({f[2]})"]:
                 return f"`{op}`: expected exactly one PUBCOMP({f[2]}), got {h}"
             open_ids.discard(f[2])
             if got:
